@@ -719,12 +719,22 @@ Theorem C06_leaf_hypothesis_discharged :
        (ALeaf (PNode "Var" name []) bits) kw) /\
   (forall u bits kw, is_ext u = true ->
      (forall mem, ext_flatten u (Some mem) kw = Some (RBits bits, Some mem)) ->
-     leaves_ok defs defs_mem var_id ext_flatten def_flatten (ALeaf u bits) kw).
+     leaves_ok defs defs_mem var_id ext_flatten def_flatten (ALeaf u bits) kw) /\
+  (* an ite in arithmetic scope whose guard is a declared Boolean variable
+     (the AIte clause of leaves_ok; a guard that is itself a comparison is
+     refused by the generated code, see the C06 row of DESIGN 12.2) *)
+  (forall name t gb a b kw, k_t kw = Some t -> nodef defs defs_mem kw name = true ->
+     d_var_flatten var_id t name (py_truth (k_prime kw)) = Some (RStr gb) ->
+     leaves_ok defs defs_mem var_id ext_flatten def_flatten a kw ->
+     leaves_ok defs defs_mem var_id ext_flatten def_flatten b kw ->
+     leaves_ok defs defs_mem var_id ext_flatten def_flatten
+       (AIte (PNode "Var" name []) gb a b) kw).
 Proof.
   intros. repeat apply conj.
   - apply leaf_num.
   - apply leaf_var.
   - apply leaf_ext.
+  - apply leaf_ite_guard.
 Qed.
 
 Theorem C06_flatten_is_translated_code :
@@ -783,13 +793,32 @@ Proof. exact translated_flatten_threads_memory. Qed.
 (* END TO END for quantifier-free arithmetic comparisons over declared
    integer variables and numerals (Leaf.qexp: numerals, variables, X / ',
    + - * / %): no hypothesis on any flatten function is left.  t = the symbol
-   table passed as t=..., no definitions in scope; [env n p] = the integer
+   table passed as t=...; [no_defs]: no name has a definition in the
+   dictionary passed as defs=... -- this covers the library's own call
+   (bitblast passes defs = {} or the registered operators, never None) as
+   well as defs=None; [env n p] = the integer
    value of variable n (primed if p); the bit assignment [vars] encodes env
    ([encodes]: the bits that the table assigns to each variable evaluate, in
    two's complement, to its value).  If neither side divides by zero, the
    buffer returned by the TRANSLATED Comparator.flatten, evaluated as
    symbolic/bdd.py does, is the integer comparison. *)
 Theorem C06_translated_flatten_end_to_end :
+  forall (defs : Type) defs_mem var_id ext_flatten def_flatten vars t env
+         op l r la ra fuel kw res st vl vr,
+  k_t kw = Some t -> no_defs defs defs_mem kw ->
+  encodes var_id vars t env ->
+  q_anode var_id t (py_truth (k_prime kw)) l = Some la ->
+  q_anode var_id t (py_truth (k_prime kw)) r = Some ra ->
+  qval env (py_truth (k_prime kw)) l = Some vl ->
+  qval env (py_truth (k_prime kw)) r = Some vr ->
+  g_flatten defs defs_mem var_id ext_flatten def_flatten fuel
+    (PNode "Comparator" op [qnode l; qnode r]) None kw = Some (res, st) ->
+  exists o buf, cmp_of_string op = Some o /\ res = RBuf buf /\ st = None /\
+    buf_value vars buf = Some (sem_cmp o vl vr).
+Proof. exact translated_flatten_end_to_end. Qed.
+
+(* the earlier statement (defs=None) is the special case *)
+Corollary C06_translated_flatten_end_to_end_defs_none :
   forall (defs : Type) defs_mem var_id ext_flatten def_flatten vars t env
          op l r la ra fuel kw res st vl vr,
   k_t kw = Some t -> k_defs kw = None ->
@@ -802,7 +831,11 @@ Theorem C06_translated_flatten_end_to_end :
     (PNode "Comparator" op [qnode l; qnode r]) None kw = Some (res, st) ->
   exists o buf, cmp_of_string op = Some o /\ res = RBuf buf /\ st = None /\
     buf_value vars buf = Some (sem_cmp o vl vr).
-Proof. exact translated_flatten_end_to_end. Qed.
+Proof.
+  intros defs defs_mem var_id ext_flatten def_flatten vars t env op l r la ra fuel kw
+    res st vl vr Ht Hd. apply translated_flatten_end_to_end; [exact Ht|].
+  now apply no_defs_none.
+Qed.
 
 (* non-vacuity: x in -2..1 (signed, bits x_0 x_1), y in 0..3 (bits y_0 y_1,
    constant sign bit); the formula  x' * (y + 3) <= 7  at x' = -2, y = 1:
@@ -874,28 +907,134 @@ Qed.
 Theorem C06_translated_formula_end_to_end :
   forall (defs : Type) defs_mem var_id ext_flatten def_flatten vars t env benv
          e fuel kw r st v,
-  k_t kw = Some t -> k_defs kw = None -> py_truth (k_prime kw) = false ->
+  k_t kw = Some t -> no_defs defs defs_mem kw -> py_truth (k_prime kw) = false ->
   encodes var_id vars t env -> encodes_bool var_id vars t benv -> bwf var_id t e ->
   bsem env benv e = Some v ->
   g_flatten defs defs_mem var_id ext_flatten def_flatten fuel (bnode e) None kw = Some (r, st) ->
   st = None /\ exists p, px_of_fres r = Some p /\ eval_px vars p = Some v.
 Proof. exact translated_formula_end_to_end. Qed.
 
-(* non-vacuity:  (x' * (y + 3) <= 7) => ~ (y = 2 /\ FALSE)  over the table of
-   the previous example: the translated methods return a formula whose
-   value is TRUE *)
-Definition ex_f : bexp :=
-  BBin "=>" (BCmp "<=" ex_l ex_r)
-       (BNot "~" (BBin "/\" (BCmp "=" (QVar "y") (QNum "2")) (BConst "FALSE"))).
-Example C06_formula_nonvacuous :
-  bwf ex_id ex_t ex_f /\ bsem ex_env (fun _ => false) ex_f = Some true /\
-  exists p, g_flatten unit (fun _ _ => false) ex_id (fun _ _ _ => None) (fun _ _ _ => None) 60
-     (bnode ex_f) None ex_kw = Some (RForm p, None) /\ eval_px ex_vars p = Some true.
+Corollary C06_translated_formula_end_to_end_defs_none :
+  forall (defs : Type) defs_mem var_id ext_flatten def_flatten vars t env benv
+         e fuel kw r st v,
+  k_t kw = Some t -> k_defs kw = None -> py_truth (k_prime kw) = false ->
+  encodes var_id vars t env -> encodes_bool var_id vars t benv -> bwf var_id t e ->
+  bsem env benv e = Some v ->
+  g_flatten defs defs_mem var_id ext_flatten def_flatten fuel (bnode e) None kw = Some (r, st) ->
+  st = None /\ exists p, px_of_fres r = Some p /\ eval_px vars p = Some v.
 Proof.
-  split; [|split].
-  - cbn [bwf ex_f]. repeat split; eexists; vm_compute; reflexivity.
+  intros defs defs_mem var_id ext_flatten def_flatten vars t env benv e fuel kw r st v Ht Hd.
+  apply translated_formula_end_to_end; [exact Ht|]. now apply no_defs_none.
+Qed.
+
+(* ============== the translated flatten does not raise on the fragments == *)
+(* The end-to-end theorems above assume that g_flatten returns.  It does: for
+   every term of Leaf.qexp whose numerals are decimal and whose variables are
+   declared in t with well-formed hints ([q_anode] = Some), whose widths stay
+   within the 32-bit limit at every arithmetic node ([aok]: the guard of
+   flatten_arithmetic = the acceptance condition of Expr.c_arith) and every
+   fuel above depth + 33; for comparisons of two such terms ([cmp_guard]);
+   and for formulas of Leaf.bexp ([bok]).  Includes the self-check
+   x == twos_complement_to_int(bits) of int_to_twos_complement. *)
+From OmegaGP Require Import BitvectorSuccess.
+
+Theorem C06_translated_flatten_succeeds :
+  forall (defs : Type) defs_mem var_id ext_flatten def_flatten t,
+  let flat := g_flatten defs defs_mem var_id ext_flatten def_flatten in
+  (forall s z, py_int s = Some z -> g_int_to_twos_complement s = Some (num_names z)) /\
+  (forall e kw a mem fuel, k_t kw = Some t -> no_defs defs defs_mem kw ->
+     q_anode var_id t (py_truth (k_prime kw)) e = Some a ->
+     aok a mem = true -> (qdepth e + 33 < fuel)%nat ->
+     flat fuel (qnode e) (Some mem) kw
+     = Some (RBits (fst (d_aflat a mem)), Some (snd (d_aflat a mem)))) /\
+  (forall op o l r la ra kw fuel,
+     k_t kw = Some t -> no_defs defs defs_mem kw -> cmp_of_string op = Some o ->
+     q_anode var_id t (py_truth (k_prime kw)) l = Some la ->
+     q_anode var_id t (py_truth (k_prime kw)) r = Some ra ->
+     aok la [] = true -> aok ra (snd (d_aflat la [])) = true ->
+     cmp_guard (fst (d_aflat la [])) (fst (d_aflat ra (snd (d_aflat la [])))) = true ->
+     (Nat.max (qdepth l) (qdepth r) + 34 < fuel)%nat ->
+     flat fuel (PNode "Comparator" op [qnode l; qnode r]) None kw
+     = Some (RBuf (FBuf (py_len (d_cmp_flat o la ra)) (d_cmp_flat o la ra)), None)) /\
+  (forall e kw fuel, k_t kw = Some t -> no_defs defs defs_mem kw ->
+     py_truth (k_prime kw) = false -> bok var_id t e -> (bdepth e + 34 < fuel)%nat ->
+     exists r p, flat fuel (bnode e) None kw = Some (r, None) /\ px_of_fres r = Some p).
+Proof.
+  intros defs defs_mem var_id ext_flatten def_flatten t flat. repeat apply conj.
+  - exact g_int_to_twos_complement_some.
+  - apply q_flatten_succeeds.
+  - apply q_comparator_succeeds.
+  - apply b_flatten_succeeds.
+Qed.
+
+(* success and correctness together: nothing is assumed about the result *)
+Theorem C06_translated_comparison_total :
+  forall (defs : Type) defs_mem var_id ext_flatten def_flatten t vars env
+         op o l r la ra kw fuel vl vr,
+  k_t kw = Some t -> no_defs defs defs_mem kw -> cmp_of_string op = Some o ->
+  q_anode var_id t (py_truth (k_prime kw)) l = Some la ->
+  q_anode var_id t (py_truth (k_prime kw)) r = Some ra ->
+  aok la [] = true -> aok ra (snd (d_aflat la [])) = true ->
+  cmp_guard (fst (d_aflat la [])) (fst (d_aflat ra (snd (d_aflat la [])))) = true ->
+  (Nat.max (qdepth l) (qdepth r) + 34 < fuel)%nat ->
+  encodes var_id vars t env ->
+  qval env (py_truth (k_prime kw)) l = Some vl ->
+  qval env (py_truth (k_prime kw)) r = Some vr ->
+  exists buf,
+    g_flatten defs defs_mem var_id ext_flatten def_flatten fuel
+      (PNode "Comparator" op [qnode l; qnode r]) None kw = Some (RBuf buf, None) /\
+    buf_value vars buf = Some (sem_cmp o vl vr).
+Proof. exact translated_comparison_total. Qed.
+
+Theorem C06_translated_formula_total :
+  forall (defs : Type) defs_mem var_id ext_flatten def_flatten t vars env benv
+         e kw fuel v,
+  k_t kw = Some t -> no_defs defs defs_mem kw -> py_truth (k_prime kw) = false ->
+  bok var_id t e -> (bdepth e + 34 < fuel)%nat ->
+  encodes var_id vars t env -> encodes_bool var_id vars t benv ->
+  bsem env benv e = Some v ->
+  exists r p, g_flatten defs defs_mem var_id ext_flatten def_flatten fuel (bnode e) None kw
+              = Some (r, None) /\ px_of_fres r = Some p /\ eval_px vars p = Some v.
+Proof. exact translated_formula_total. Qed.
+
+(* non-vacuity with the entry shape of the library: defs = {} (Some []), the
+   divider path ( / and % ), the hypotheses of the TOTAL theorems checked by
+   computation and the theorem applied:
+     (y + 3) / x' <= 7 % 4      at x' = -2, y = 1:  -2 <= 3 *)
+Definition ex_defs_mem (d : list string) (n : string) : bool := existsb (String.eqb n) d.
+Definition ex_kw0 : kwargs (list string) := mkKw None (Some ex_t) (Some []).
+Definition ex_l2 : qexp :=
+  QArith ADiv "/" (QArith AAdd "+" (QVar "y") (QNum "3")) (QPrime "'" (QVar "x")).
+Definition ex_r2 : qexp := QArith AMod "%" (QNum "7") (QNum "4").
+
+Definition ex_anode (e : qexp) : anode :=
+  match q_anode ex_id ex_t false e with Some a => a | None => ALeaf (PNode "" "" []) [] end.
+
+Example C06_total_nonvacuous :
+  no_defs (list string) ex_defs_mem ex_kw0 /\
+  (let la := ex_anode ex_l2 in let ra := ex_anode ex_r2 in
+   q_anode ex_id ex_t false ex_l2 = Some la /\ q_anode ex_id ex_t false ex_r2 = Some ra /\
+   aok la [] = true /\ aok ra (snd (d_aflat la [])) = true /\
+   cmp_guard (fst (d_aflat la [])) (fst (d_aflat ra (snd (d_aflat la [])))) = true) /\
+  qval ex_env false ex_l2 = Some (-2) /\ qval ex_env false ex_r2 = Some 3 /\
+  (Nat.max (qdepth ex_l2) (qdepth ex_r2) + 34 < 60)%nat /\
+  exists buf,
+    g_flatten (list string) ex_defs_mem ex_id (fun _ _ _ => None) (fun _ _ _ => None) 60
+      (PNode "Comparator" "<=" [qnode ex_l2; qnode ex_r2]) None ex_kw0 = Some (RBuf buf, None) /\
+    buf_value ex_vars buf = Some true.
+Proof.
+  split; [intros n; reflexivity|]. split; [|split; [|split; [|split]]].
+  - cbv zeta. repeat split; vm_compute; reflexivity.
   - vm_compute. reflexivity.
-  - vm_compute. eexists. split; reflexivity.
+  - vm_compute. reflexivity.
+  - vm_compute. lia.
+  - set (F := g_flatten _ _ _ _ _ _ _ _ _).
+    assert (H : match F with
+                | Some (RBuf buf, None) => buf_value ex_vars buf
+                | _ => None
+                end = Some true) by (vm_compute; reflexivity).
+    destruct F as [[[b|l|buf|p] [m|]]|]; try discriminate.
+    exists buf. split; [reflexivity|exact H].
 Qed.
 
 Print Assumptions C06_adder_exact.
@@ -925,6 +1064,7 @@ Print Assumptions C06_compile_bits_correct.
 Print Assumptions C06_acceptance_static.
 Print Assumptions C06_accepts_iff.
 Print Assumptions C06_grammar_accepted_bounded.
+Print Assumptions C06_strict_comparators_bounded.
 Print Assumptions C06_opmap_meaning_bounded.
 Print Assumptions C06_circuits_are_translated_code.
 Print Assumptions C06_translated_code_succeeds.
@@ -940,6 +1080,11 @@ Print Assumptions C06_flatten_is_translated_code.
 Print Assumptions C06_translated_flatten_end_to_end.
 Print Assumptions C06_connectives_are_translated_code.
 Print Assumptions C06_translated_formula_end_to_end.
+Print Assumptions C06_translated_flatten_end_to_end_defs_none.
+Print Assumptions C06_translated_formula_end_to_end_defs_none.
+Print Assumptions C06_translated_flatten_succeeds.
+Print Assumptions C06_translated_comparison_total.
+Print Assumptions C06_translated_formula_total.
 Print Assumptions C06_memory_threading_sound.
 Print Assumptions C06_translated_comparator_flatten_correct.
 Print Assumptions C06_translated_flatten_threads_memory.
